@@ -314,7 +314,14 @@ def make_rb_case(rng, i):
             envs.append({'A1': lo + d, 'B1': hi + d + (rng.choice((0.0, 1.0, 0.5)))})
         else:
             envs.append({'A1': lo, 'B1': hi})
+    computed = None
+    if i % 5 == 4:
+        # bounds computed by functions that hand over numpy integers
+        computed = ('gcd-lcm', 'match')[(i // 5) % 2]
+        lo, hi = (2.0, 6.0) if computed == 'gcd-lcm' else (1.0, 3.0)
+        byref, wide, envs = False, False, [{'A1': lo, 'B1': hi} for _ in range(6)]
     return {'kind': 'rb', 'wrapper': WRAPPERS[i % len(WRAPPERS)], 'byref': byref,
+            'computed': computed,
             'c': float(rng.randint(-4, 9)), 'envs': envs, 'wide': wide,
             'ways': [FWAYS[i % len(FWAYS)], FWAYS[(i // 4 + 2) % len(FWAYS)]]}
 
@@ -325,6 +332,14 @@ def _rb_tree(case):
         lo, hi = ['ref', 'A1'], ['ref', 'B1']
     else:
         lo, hi = _lit(env['A1']), _lit(env['B1'])
+    if case.get('computed') == 'gcd-lcm':
+        lo = ['call', 'GCD', [['num', '4'], ['num', '6']]]
+        hi = ['call', 'LCM', [['num', '2'], ['num', '3']]]
+    elif case.get('computed') == 'match':
+        lo = ['call', 'COUNT', [['num', '7']]]
+        hi = ['call', 'MATCH', [['str', 'z'], ['arr', [[['str', 'x'], ['str', 'y'],
+                                                        ['str', 'z'], ['str', 'w']]]],
+                                ['num', '0']]]
     site = ['call', 'RANDBETWEEN', [lo, hi]]
     c = _lit(case['c'])
     w = case['wrapper']
